@@ -234,13 +234,16 @@ def run(c):
     shards = max(2, min(8, ncpu // 2))
 
     # 1. design: the repaired hand-over of fatal errors and the repaired watcher close; every clause
-    seq, mg, me, mf = (3, 2, 3, 1) if q else (4, 3, 5, 2)
+    seq, mg, me, mf = 3, 2, 3, 1
     c.tlc_must_pass("Collector", "CollectorMC", cfg_text=cfg(seq, mg, me, mf, False, ["TypeOK"] + CLAUSES),
                     coverage=True, timeout=1500, label="design", workers=min(12, ncpu),
-                    vacuous_ok=("FatalUnlock",))
+                    vacuous_ok=("FatalUnlock",))        # FatalUnlock belongs to the blocking send only
+    deep = []
     if not q:
-        c.tlc_must_pass("Collector", "CollectorMC", cfg_text=cfg(2, 4, 6, 2, False, ["TypeOK"] + CLAUSES),
-                        timeout=1500, label="design_more_reloads", workers=min(12, ncpu))
+        deep = [("design_deep", (3, 3, 5, 2)), ("design_4_components", (4, 2, 4, 1)), ("design_3_reloads", (2, 4, 5, 2))]
+        for label, k in deep:
+            c.tlc_must_pass("Collector", "CollectorMC", cfg_text=cfg(*k, False, ["TypeOK"] + CLAUSES),
+                            timeout=1500, label=label, workers=min(12, ncpu))
     # the two pinned mechanisms, one at a time: TLC is expected to find the deadlock (blocking send under
     # the reporter mutex) and the panic (watcher channel closed under a notifier).  Recorded in the
     # evidence; never a verdict by itself (their counterexamples become scripts in step 2).
@@ -375,7 +378,8 @@ def run(c):
                       trace=["%s %s %s" % (e["ev"], e.get("st"), {k: v for k, v in e.items() if k in ("gen", "comp", "kind", "err")})
                              for e in tr[1:40]]))
     c.exhaustive = False
-    c.extra["constants"] = dict(design=dict(comps=seq, MaxGen=mg, MaxEnv=me, MaxFail=mf), watchdog_s=WATCHDOG)
+    c.extra["constants"] = dict(design=[dict(comps=k[0], MaxGen=k[1], MaxEnv=k[2], MaxFail=k[3])
+                                        for k in [(seq, mg, me, mf)] + [k for _, k in deep]], watchdog_s=WATCHDOG)
     c.extra["driver_processes"] = shards
     c.assumptions += [
         "harness components never block by themselves; the run loop's callbacks return once the injected events settled",
